@@ -160,6 +160,12 @@ func main() {
 		fmt.Println(dir)
 		return
 	}
+	if prop == "selftest-determinism" {
+		if maxRuns == 0 {
+			maxRuns = 160
+		}
+		os.Exit(selftest(props, maxRuns))
+	}
 	info, ok := props[prop]
 	if !ok {
 		die(2, "property %s is not claimed (see MANIFEST.json not_applicable)", prop)
@@ -574,4 +580,119 @@ func writeEvidence(prop, tier string, seed int64, info propInfo, agg *workerOut,
 	if err := os.WriteFile(filepath.Join(root, "evidence", prop+".json"), b, 0o644); err != nil {
 		fmt.Fprintln(os.Stderr, "evidence:", err)
 	}
+}
+
+// selftest executes run indices [0, n) of every claimed property three times in
+// differently shaped sets of OS processes - one process running them all in sequence;
+// 16 processes (each run then follows a different predecessor in its process, which
+// exposes state leaking from run to run); 5 processes started with GOMAXPROCS=4 in the
+// environment (the process pins 1) - all under full machine load, and compares the
+// event-log hash of every run. Any difference is exit 2 with the diverging runs listed.
+func selftest(props map[string]propInfo, n int) int {
+	dir := build()
+	ids := make([]string, 0, len(props))
+	for id := range props {
+		ids = append(ids, id)
+	}
+	sort.Strings(ids)
+	tmp, err := os.MkdirTemp("", "verif-selftest-")
+	if err != nil {
+		die(2, "tmp: %v", err)
+	}
+	defer os.RemoveAll(tmp)
+	type shape struct {
+		name    string
+		workers int
+		gmp     string
+	}
+	shapes := []shape{{"1proc", 1, "1"}, {"16proc", 16, "16"}, {"5proc-gomaxprocs4", 5, "4"}}
+	type job struct {
+		id    string
+		bin   string
+		sh    int
+		w     int
+		nbins int
+		path  string
+	}
+	var jobs []job
+	for _, id := range ids {
+		info := props[id]
+		bins := append([]string{info.Bin}, info.ExtraBins...)
+		for bi, b := range bins {
+			for si, sh := range shapes {
+				for w := 0; w < sh.workers; w++ {
+					jobs = append(jobs, job{id: id, bin: filepath.Join(dir, b+".test"), sh: si, w: w, nbins: len(bins),
+						path: filepath.Join(tmp, fmt.Sprintf("%s-%d-%d-%d", id, bi, si, w))})
+				}
+			}
+		}
+	}
+	sem := make(chan struct{}, runtime.NumCPU())
+	var wg sync.WaitGroup
+	var mu sync.Mutex
+	var trouble []string
+	for _, j := range jobs {
+		wg.Add(1)
+		sem <- struct{}{}
+		go func(j job) {
+			defer wg.Done()
+			defer func() { <-sem }()
+			sh := shapes[j.sh]
+			cmd := exec.Command(j.bin, "-test.run", "^TestVerif$", "-test.timeout", "1800s")
+			cmd.Env = append(os.Environ(), "VERIF_PROP="+j.id, "VERIF_TIER=quick", "VERIF_SEED=1",
+				fmt.Sprintf("VERIF_WORKER=%d", j.w), fmt.Sprintf("VERIF_WORKERS=%d", sh.workers),
+				"VERIF_BUDGET_S=1500", fmt.Sprintf("VERIF_MAX_RUNS=%d", n), "VERIF_HASHLOG="+j.path,
+				"VERIF_COLLECT=1", "VERIF_REPLAY_DIR="+tmp, "VERIF_KNOWN="+filepath.Join(root, "known_findings.jsonl"),
+				"VERIF_MIN_BUDGET_S=1", "GOMAXPROCS="+sh.gmp, "VERIF_REPLAY=", "VERIF_OUT=")
+			if out, err := cmd.CombinedOutput(); err != nil {
+				mu.Lock()
+				trouble = append(trouble, fmt.Sprintf("%s shape %s worker %d: %v\n%s", j.id, sh.name, j.w, err, tail(string(out), 15)))
+				mu.Unlock()
+			}
+		}(j)
+	}
+	wg.Wait()
+	total, bad := 0, 0
+	for _, id := range ids {
+		info := props[id]
+		nb := 1 + len(info.ExtraBins)
+		for bi := 0; bi < nb; bi++ {
+			var maps []map[string]string
+			for si, sh := range shapes {
+				m := map[string]string{}
+				for w := 0; w < sh.workers; w++ {
+					b, _ := os.ReadFile(filepath.Join(tmp, fmt.Sprintf("%s-%d-%d-%d", id, bi, si, w)))
+					for _, l := range strings.Split(string(b), "\n") {
+						f := strings.SplitN(l, " ", 2)
+						if len(f) == 2 {
+							m[f[0]] = f[1]
+						}
+					}
+				}
+				maps = append(maps, m)
+			}
+			if len(maps[0]) < n {
+				trouble = append(trouble, fmt.Sprintf("%s: only %d of %d runs recorded", id, len(maps[0]), n))
+			}
+			for k, v := range maps[0] {
+				total++
+				for si := 1; si < len(maps); si++ {
+					if maps[si][k] != v {
+						bad++
+						if bad <= 20 {
+							trouble = append(trouble, fmt.Sprintf("%s run %s: %s gives %q, %s gives %q", id, k, shapes[0].name, v, shapes[si].name, maps[si][k]))
+						}
+					}
+				}
+			}
+		}
+	}
+	fmt.Printf("selftest-determinism: %d properties, %d runs each executed in %d process shapes, %d diverging\n", len(ids), total, len(shapes), bad)
+	if len(trouble) > 0 {
+		for _, t := range trouble {
+			fmt.Fprintln(os.Stderr, "TROUBLE:", t)
+		}
+		return 2
+	}
+	return 0
 }
